@@ -395,4 +395,103 @@ theorem createCopy_plain {db : Db} {s s' : St} {i : Nat} {out : Out} {a : Snap} 
     simp only [copyQuantity, bind_eval, pure_eval, newObj] at h
     cases h; exact ⟨rfl, rfl⟩
 
+theorem readSeq_inv {s s' : St} {r : Ref} {p : Kind × List Rat} (h : readSeq r s = .ok (p, s')) :
+    s' = s ∧ s.heap[r]? = some (.seq p.1 p.2) := by
+  unfold readSeq at h
+  rw [bind_eval] at h
+  unfold readM at h
+  cases hc : s.heap[r]? with
+  | none => rw [hc] at h; cases h
+  | some c =>
+    rw [hc] at h
+    cases c with
+    | seq k xs => simp only [pure_eval] at h; cases h; exact ⟨rfl, rfl⟩
+    | _ => simp only [failM] at h; cases h
+
+/-- unpickling a Scalar: `Scalar(quantity', value, None)` with the SAME number and the re-obtained quantity -/
+theorem pickle_scalar_parts {db : Db} {s s' : St} {i q : Nat} {x : Rat} {out : Out}
+    (ho : s.objs[i]? = some (.scalar q x)) (h : exec db (.pickle i) s = .ok (out, s')) :
+    ∃ q' s1, pickleQuantity db q s = .ok (q', s1) ∧ out = .obj s1.objs.length true ∧
+      s' = { s1 with objs := s1.objs ++ [.scalar q' x] } := by
+  rw [exec_pickle] at h
+  unfold fresh pickleObj at h
+  rw [bind_eval, bind_eval, getObj_of ho] at h
+  simp only [bind_eval] at h
+  cases hp : pickleQuantity db q s with
+  | error e => rw [hp] at h; cases h
+  | ok p =>
+    obtain ⟨q', s1⟩ := p
+    rw [hp] at h
+    simp only [newObj, pure_eval] at h
+    cases h
+    exact ⟨q', s1, rfl, rfl, rfl⟩
+
+/-- unpickling a FixedArray: same dimension, a NEW container of the same kind with the same contents, the
+re-obtained quantity -/
+theorem pickle_fixed_parts {db : Db} {s s' : St} {i d q : Nat} {c : Ref} {out : Out}
+    (ho : s.objs[i]? = some (.fixed d q c)) (h : exec db (.pickle i) s = .ok (out, s')) :
+    ∃ q' s1 k xs, pickleQuantity db q s = .ok (q', s1) ∧ s1.heap[c]? = some (.seq k xs) ∧
+      out = .obj s1.objs.length true ∧
+      s' = { s1 with heap := s1.heap ++ [.seq k xs], objs := s1.objs ++ [.fixed d q' s1.heap.length] } := by
+  rw [exec_pickle] at h
+  unfold fresh pickleObj at h
+  rw [bind_eval, bind_eval, getObj_of ho] at h
+  simp only [bind_eval] at h
+  cases hp : pickleQuantity db q s with
+  | error e => rw [hp] at h; cases h
+  | ok p =>
+    obtain ⟨q', s1⟩ := p
+    rw [hp] at h
+    simp only at h
+    cases hr : readSeq c s1 with
+    | error e => rw [hr] at h; cases h
+    | ok p2 =>
+      obtain ⟨kx, s2⟩ := p2
+      obtain ⟨hs2, hc⟩ := readSeq_inv hr
+      subst hs2
+      rw [hr] at h
+      simp only [allocM] at h
+      split at h
+      · rename_i heq
+        split at heq
+        · cases heq
+        · split at heq
+          · cases heq
+          · simp only [newObj] at heq; cases heq
+            simp only [pure_eval] at h; cases h
+            exact ⟨q', s2, kx.1, kx.2, rfl, hc, rfl, rfl⟩
+      · cases h
+
+/-! ### a three-unit database and helpers for the non-vacuity examples of `Props/C13.lean` -/
+
+def exLength : Sym := 114849160783212   -- "length"
+def exTime : Sym := 1701669236          -- "time"
+def exM : Sym := 109                    -- "m"
+def exCm : Sym := 28003                 -- "cm"
+def exS : Sym := 115                    -- "s"
+def exCap : Sym := 7364963              -- "cap"
+
+def exRow (qt sym : Sym) (toB fromB : Mob) : UnitRow :=
+  { qtype := qt, name := sym, sym := sym, ok := true, toBase := toB, fromBase := fromB, hasConvTo := true,
+    hasConvFrom := true, annTo := none, annFrom := none, defaultCat := qt, digits := 0 }
+
+def exCat (c qt u : Sym) : CatRow :=
+  { name := c, qtype := qt, validUnits := none, defaultUnit := u, defaultValue := 0, minV := none, maxV := none,
+    minExcl := false, maxExcl := false, caption := c }
+
+/-- length: m (base), cm; time: s -/
+def exDb : Db :=
+  { units := [exRow exLength exM Mob.ident Mob.ident, exRow exLength exCm ⟨0, 1 / 100, 1, 0⟩ ⟨0, 100, 1, 0⟩,
+              exRow exTime exS Mob.ident Mob.ident],
+    cats := [exCat exLength exLength exM, exCat exTime exTime exS] }
+
+def outputs (db : Db) (s : St) : List Op → List (Except ErrKind Out)
+  | [] => []
+  | op :: ops => (step db s op).2 :: outputs db (step db s op).1 ops
+
+def outIs (r : Option (Except ErrKind Out)) (o : Out) : Bool :=
+  match r with
+  | some (.ok x) => x == o
+  | _ => false
+
 end Barril.Heap
